@@ -8,13 +8,25 @@ from units import U
 ID = 'C20'
 ZERO_LABELS = True      # a share of the cases is asked with candidates numbered from 0 (harness/common.py LABEL_MODE)
 LEVEL = 'proof'
-TIE = {'vote.py validators / VoteMagnitudeChecker': 'correspondence', 'candidate.py nominators': 'correspondence',
-       'convert.InvalidVoteEliminator': 'correspondence'}
+# translator tie (tools/py2v.py part 6): unit of Gen/STATUS.json -> the file proving generated = model.  When the translator rejects
+# the current source the unit falls back to the correspondence streams below (run.py records it in coverage.translator_fallback);
+# a GenTie theorem that no longer checks is a broken obligation of C20 and widens the search for a failing ballot.
+GEN_TIES = {'Validate': 'Props/GenTie_Validate.v'}
+TIE = {'vote.py VoteMagnitudeChecker.is_valid / check / __bool__ (_active), DefaultedCheckers.__getitem__, the validate methods of Simple / '
+       'Approval / Ranked / Score / EnumScore / Range validators (whole bodies)':
+           'translator (Gen/Validate.v regenerated on every run; Props/GenTie_Validate.v proves each equal to Model/Validate.v - acceptance '
+           'or a rejection of the same kind - for every configuration and every object of the grammar) + correspondence',
+       'candidate.py Basic / Person / Party nominators (isinstance cascades read against the class hierarchy of candidate.py)':
+           'translator (GenTie_nominator) + correspondence',
+       'convert.InvalidVoteEliminator.convert (try / except VoteError as a filter, del of the rejected keys)':
+           'translator (GenTie_eliminator) + correspondence',
+       'the constructors (__init__: bounds -> checkers, DefaultedCheckers from a dict of bounds)': 'correspondence'}
 RULE = ('corpus; exhaustive stream: every object of the ballot grammar up to size 3 over a 6-symbol alphabet per vote type x ~40 '
         'validator configurations (quick: sampled); random stream: grammar objects to size 8 (wrong containers, nested collections as '
         'candidates, duplicates across shared ranks, empty ballots, out-of-range / non-enumerated scores, blank and coalition candidates) '
         'x random configurations (bounds None/equal/crossing, per-rank and per-count dictionaries, Basic/Person/Party nominators); '
-        'eliminator stream: profiles of 1..6 such ballots. non-trivial = ballot rejected, or a bound met with equality, or a shared rank; '
+        'unhashable stream: ranked ballots (and the other validators) given a list / a tuple holding a list as an item, around ranks rejected '
+        'for other reasons; eliminator stream: profiles of 1..6 such ballots. non-trivial = ballot rejected, or a bound met with equality, or a shared rank; '
         'distinct by case hash')
 PARTIAL = []
 TRUSTED = []
@@ -237,13 +249,21 @@ def spec(c, io, mo):
             c['_class'] = 'score-duplicate'
             return 'score ballot naming a candidate twice is accepted'
         if v[0] == 1 and v[1] not in (common.E['VOTE'], common.E['CAND']):
-            if numeric_scores(c):
+            if numeric_scores(c) and not holds_list(c['obj']):
                 c['_class'] = 'crash'
                 return 'rejection reported as %s instead of a vote / candidate error' % common.E_NAME.get(v[1], v[1])
     if c['unit'] == 'eliminate' and v[0] == 1 and v[1] == common.E['CAND']:
         c['_class'] = 'eliminator-candidate-error'
         return 'InvalidVoteEliminator raises CandidateError instead of removing the rejected ballot'
     return None
+
+
+def holds_list(o):
+    """a list somewhere inside the object (an unhashable item: set.add raises TypeError; like non-numeric scores outside the
+    rejection clause - the model answers VCrash there and the comparison is exact)"""
+    if o[0] == 'l':
+        return True
+    return o[0] in ('t', 'f') and any(holds_list(x) for x in o[1])
 
 
 def numeric_scores(c):
@@ -416,6 +436,48 @@ def gen_validate(rng, count):
         yield dict(unit='validate', cfg=cfg, obj=canon_obj(obj))
 
 
+def gen_unhashable(rng, count):
+    """ballots holding an unhashable item: a list, or a tuple with a list somewhere inside, as a rank of a ranked ballot (set.add ->
+    TypeError in the implementation, VCrash in the model - Model.Validate.hashable is deep), before / after a rank that is rejected
+    for another reason (the first defect in rank order decides); the same objects handed to the other validators"""
+    def lst():
+        return ['l', [cand(rng) for _ in range(rng.randint(0, 2))]]
+
+    def bad():
+        r = rng.random()
+        if r < 0.4:
+            return lst()
+        if r < 0.8:
+            return ['t', [cand(rng) for _ in range(rng.randint(0, 2))] + [lst()]]
+        return ['t', [cand(rng), ['t', [num(rng), lst()]]]]
+    for _ in range(count):
+        kind = rng.choice(['ranked', 'ranked', 'ranked', 'simple', 'approval', 'enum', 'range'])
+        cfg = dict(kind=kind, nom=rnom(rng))
+        items = []
+        for _ in range(rng.randint(0, 3)):
+            q = rng.random()
+            items.append(cand(rng) if q < 0.6 else ['f', [cand(rng) for _ in range(rng.randint(0, 3))]] if q < 0.85 else junk(rng))
+        items.insert(rng.randint(0, len(items)), bad())
+        obj = ['t', items]
+        if kind == 'simple':
+            obj = bad()
+        elif kind == 'approval':
+            cfg['count'] = rbounds(rng)
+        elif kind == 'ranked':
+            cfg['total'] = rbounds(rng)
+            cfg['ranks'], cfg['ranks_dict'] = rkeyed(rng, rng.choice([['1', '1'], ['1', '2'], [None, None]]))
+        else:
+            cfg['nsc'] = rbounds(rng)
+            cfg['sums'], cfg['sums_dict'] = rkeyed(rng, rbounds(rng, 10), 10)
+            if kind == 'enum':
+                cfg['levels'] = [num(rng) for _ in range(rng.randint(1, 4))]
+            else:
+                cfg['range'] = rbounds(rng)
+        if any(not hashable(x) and x[0] == 'f' for x in items):
+            continue
+        yield dict(unit='validate', cfg=cfg, obj=canon_obj(obj))
+
+
 def gen_eliminate(rng, count):
     for c in gen_validate(rng, count * 3):
         if not hashable(c['obj']):
@@ -441,6 +503,7 @@ def explore(ctx, widen=1):
     kw = dict(canon=canon, nontrivial=nontrivial, spec=spec, known_class=known_class)
     ctx.differential('corpus', corpus(), model_line, impl, **kw)
     ctx.differential('grammar', gen_validate(ctx.rng, ctx.n(6000, 80000) * widen), model_line, impl, **kw)
+    ctx.differential('unhashable', gen_unhashable(ctx.rng, ctx.n(400, 4000) * widen), model_line, impl, **kw)
     ctx.differential('eliminator', list(gen_eliminate(ctx.rng, ctx.n(600, 6000) * widen))[:ctx.n(1500, 15000)], model_line, impl, **kw)
     acc = sum(1 for s in ctx.samples if s)
     ctx.notes.append('accepted/rejected split is recorded in input_distribution')
